@@ -436,7 +436,7 @@ func Run(r *corr.Run) {
 	runTrieStream(r)
 	accts := newAccts(r, 4)
 	witnessCases(r, accts)
-	nNode, nClient := r.Pick(500, 12000), r.Pick(250, 6000)
+	nNode, nClient := r.Pick(600, 14000), r.Pick(300, 7000)
 	for k := 0; (k < nNode || k < nClient) && r.TimeLeft(); k++ {
 		if k < nNode {
 			steps := 6 + r.Intn(40)
